@@ -122,6 +122,10 @@ impl OffsetDateTime {
     pub fn nanosecond(self) -> (r: u32)
         ensures r == self@.nanos, instant_wf(self@),
     { unimplemented!() }
+    #[verifier::external_body]
+    pub fn unix_timestamp_nanos(self) -> (r: i128)
+        ensures r == self@.secs * 1_000_000_000 + self@.nanos, instant_wf(self@),
+    { unimplemented!() }
     /// checked_add: None when the sum leaves the supported range
     #[verifier::external_body]
     pub fn checked_add(self, d: Duration) -> (r: Option<OffsetDateTime>)
